@@ -341,8 +341,35 @@ def tr_solve_end_to_end(tree):
     return True
 
 
+def census(tree):
+    """Who touches the cache in solve.py: the field, its one writer (FunctionContext.append_unsat_core), its one
+    reader (the look-up at the head of solve_end_to_end) and check_unsat_cores itself.  In particular
+    solve_low_level -- the door of the consumers that pose their query un-refined (T-cacheusers) -- does not."""
+    allowed = {("SolvingContext",), ("FunctionContext", "append_unsat_core"), ("solve_end_to_end",), ("check_unsat_cores",)}
+    names = {"check_unsat_cores", "unsat_cores", "append_unsat_core"}
+
+    def go(node, path):
+        for c in ast.iter_child_nodes(node):
+            p = path + (c.name,) if isinstance(c, (ast.FunctionDef, ast.AsyncFunctionDef, ast.ClassDef)) else path
+            hit = (isinstance(c, ast.Name) and c.id in names) or (isinstance(c, ast.Attribute) and c.attr in names)
+            if hit and path not in allowed:
+                raise TranslateError(f"line {c.lineno}: the unsat-core cache is used in `{'.'.join(path) or '<module>'}`: {ast.unparse(c)[:120]}")
+            go(c, p)
+
+    go(tree, ())
+    fn = find_function(tree, "append_unsat_core", cls="FunctionContext")
+    body = strip_docstring(list(fn.body))
+    if len(body) != 1 or ast.unparse(body[0]) != f"self.solving_ctx.unsat_cores.append({fn.args.args[1].arg})":
+        raise TranslateError("append_unsat_core: expected `self.solving_ctx.unsat_cores.append(<core>)`")
+    e2e = find_function(tree, "solve_end_to_end")
+    reads = [n for n in ast.walk(e2e) if isinstance(n, ast.Attribute) and n.attr == "unsat_cores"]
+    if len(reads) != 1:
+        raise TranslateError(f"solve_end_to_end: {len(reads)} reads of unsat_cores, expected the one look-up")
+
+
 def translate(src_text):
     tree = ast.parse(src_text)
+    census(tree)
     check = tr_check_unsat_cores(tree)
     pattern, sub_pat, sub_repl, group_no = tr_parse_unsat_core(tree)
     pieces, file_parts = tr_dump(tree)
